@@ -12,7 +12,8 @@ Extracted, fail closed on any other shape:
     `.array` / `.array_3d` / no setter);
   * the shape of Photon.__iadd__ and Photon.__add__: the two isinstance guards, then either the raw tail
     (`self._array += other` / `self._array = other`) or the tail through the setters; ArrayBase.__iadd__ /
-    __add__ must be `self.array += other` / `self.array = other`;
+    __add__: `self.array += other` (in place on the stored array) or the addition on a copy, `self.array = other`
+    on an empty container;
   * the shape of ArrayBase.__eq__ (arrays compared only when the left side is initialised / None-ness compared
     on both sides first) and whether Photon.__eq__ compares `(_num_rows, _num_cols)`;
   * the guards of the getters (`ArrayBase.array`, `Photon.array`, `Photon.array_3d`) and of both `__array__`
@@ -214,6 +215,13 @@ PH_SET = {_canon("if self._array is None:\n    if isinstance(other, xr.DataArray
                  "    self.array += other\nelse:\n    self.array_3d += other")}
 BASE_IADD = {_canon("if self._array is not None:\n    self.array += other\nelse:\n    self.array = other"),
              _canon("if self._array is None:\n    self.array = other\nelse:\n    self.array += other")}
+BASE_IADD_COPY = set()
+for _v in ("new_array", "new", "result", "array"):
+    for _c in ("self._array.copy()", "np.copy(self._array)", "self.array.copy()", "np.array(self._array)"):
+        BASE_IADD_COPY.add(_canon(f"if self._array is not None:\n    {_v} = {_c}\n    {_v} += other\n    self.array = {_v}\n"
+                                  "else:\n    self.array = other"))
+        BASE_IADD_COPY.add(_canon(f"if self._array is None:\n    self.array = other\nelse:\n    {_v} = {_c}\n    {_v} += other\n"
+                                  f"    self.array = {_v}"))
 BASE_EQ_LEFT = [[_canon("is_true = type(self) is type(other) and self.shape == other.shape"),
                  _canon("if is_true and self._array is not None:\n    is_true = np.array_equal(self.array, other.array)"),
                  _canon("return is_true")]]
@@ -466,12 +474,18 @@ def extract(repo: Path) -> dict:
     if "self._shape = shape" not in ib or not any(s.startswith("self._array") and s.endswith("= None") for s in ib):
         fail(init, "ArrayBase.__init__ must set `self._array = None` and `self._shape = shape`")
 
-    for nm in ("__iadd__", "__add__"):
+    for nm, key in (("__iadd__", "b_iadd"), ("__add__", "b_add")):
         fn = find_func(tree, nm, "ArrayBase")
         b = shape_of(fn)
-        if [a.arg for a in fn.args.args] != ["self", "other"] or len(b) != 2 or b[0] not in BASE_IADD or b[1] != "return self":
-            fail(fn, f"ArrayBase.{nm} must be `self.array += other` on an initialised / `self.array = other` on an empty "
-                     "container, then `return self`")
+        if [a.arg for a in fn.args.args] != ["self", "other"] or len(b) != 2 or b[1] != "return self":
+            fail(fn, f"ArrayBase.{nm}: expected one if/else and `return self`")
+        if b[0] in BASE_IADD:
+            info[key] = "BIInPlace"
+        elif b[0] in BASE_IADD_COPY:
+            info[key] = "BIOnCopy"
+        else:
+            fail(fn, f"ArrayBase.{nm} must be `self.array += other` (or the addition on a copy followed by "
+                     "`self.array = <copy>`) on an initialised / `self.array = other` on an empty container")
     info["base_eq"] = base_eq_kind(find_func(tree, "__eq__", "ArrayBase"))
     init_fn = find_func(tree, "_is_array_initialized")
     if [norm(x) for x in body_no_doc(init_fn)] != ["return data is not None"]:
@@ -661,6 +675,7 @@ def render(info: dict, iadd_rows) -> str:
             f"     q_clip := {'true' if info['q_clip'] else 'false'};\n"
             "     det_setter := src_det_setter;\n"
             f"     ph_iadd := {info['ph_iadd']}; ph_add := {info['ph_add']};\n"
+            f"     b_iadd := {info['b_iadd']}; b_add := {info['b_add']};\n"
             f"     base_eq := {info['base_eq']}; ph_eq_geom := {'true' if info['ph_eq_geom'] else 'false'};\n"
             f"     rd_base := {g(rd['base'], 'none')};\n"
             f"     rd_ph2_none := {g(rd['ph2'], 'none')}; rd_ph2_xr := {g(rd['ph2'], 'other')};\n"
@@ -690,7 +705,8 @@ _FALLBACK_INFO = {
           "shape": "ValueError", "coord": "ValueError"}, "q_clip": True,
     "setters": {"photon": "SetterDispatch", "pixel": "SetterValidating", "signal": "SetterValidating",
                 "image": "SetterValidating", "phase": "SetterNone"},
-    "ph_iadd": "IAddSetters", "ph_add": "IAddSetters", "base_eq": "EqBothNone", "ph_eq_geom": True,
+    "ph_iadd": "IAddSetters", "ph_add": "IAddSetters", "b_iadd": "BIOnCopy", "b_add": "BIOnCopy",
+    "base_eq": "EqBothNone", "ph_eq_geom": True,
     "reads": {"base": {"none": "ValueError"}, "ph2": {"none": "ValueError", "other": "TypeError"},
               "ph3": {"none": "ValueError", "other": "TypeError"}, "aa_base": {"notnp": "TypeError"},
               "aa_ph": {"none": "ValueError"}},
